@@ -5,4 +5,4 @@
 import PV.Model.ChanDriver
 open PV PV.Chan
 
-def main : IO Unit := lineLoopSt (init 0 0 0 0 false) (driverStep fixedCfg)
+def main : IO Unit := lineLoopSt driverInit (driverStep fixedCfg)
